@@ -1345,6 +1345,9 @@ void IGXMLScanner::scanDocTypeDecl()
     );
     dtdScanner.setScannerInfo(this, &fReaderMgr, &fBufMgr);
 
+    // Readers pushed for parameter entities must not outlive the DTDScanner
+    ReaderStackJanitor janReaderStack(&fReaderMgr);
+
     //  If the next character is '[' then we have no external subset cause
     //  there is no system id, just the opening character of the internal
     //  subset. Else, has to be an id.
@@ -3132,6 +3135,9 @@ Grammar* IGXMLScanner::loadDTDGrammar(const InputSource& src,
         , fMemoryManager
     );
     dtdScanner.setScannerInfo(this, &fReaderMgr, &fBufMgr);
+
+    // Readers pushed for parameter entities must not outlive the DTDScanner
+    ReaderStackJanitor janReaderStack(&fReaderMgr);
 
     // Tell it its not in an include section
     dtdScanner.scanExtSubsetDecl(false, true);
